@@ -29,7 +29,7 @@ ASSUMPTIONS = ['factor / factor is defined for divisor domain within dividend do
                'rtol 1e-12 (1e-10 for logsumexp / logaddexp whose reference is a python math.log of a sum)']
 PLAN = {
     'quick': dict(cases=320, budget_s=60, case_timeout=60, min_cases=80),
-    'thorough': dict(cases=12000, budget_s=900, case_timeout=120, min_cases=2500),
+    'thorough': dict(cases=12000, budget_s=600, case_timeout=120, min_cases=2000),
 }
 POOL = ['p', 'q', 'r', 's', 't', 'u']
 
